@@ -19,7 +19,7 @@ from harness import common
 
 THEOREMS = [
     'Src.w1_sum_one', 'Src.point_moment', 'Src.trilinear_partition',
-    'Src.cell_weights_sum_x', 'Src.interval_union', 'Src.segments_tile_1d',
+    'Src.cell_weights_sum_x', 'Src.interval_union', 'Src.segments_tile_1d', 'Src.tiling_3d',
     'Src.rotation_unit', 'Src.square_loop_closed_planar_perp',
     'Src.square_loop_area', 'Src.square_loop_right_handed',
     'Src.point_to_dipole_span', 'Src.source_field_scaling',
